@@ -67,6 +67,31 @@ CHECKS.update({
         ref='6/C17'),
 })
 
+CHECKS.update({
+    'C07': dict(
+        text='Utxo.tla builds every transaction history in the bound incrementally (inputs removed, outputs inserted one at a time as in '
+             'callbacks/common.rs) and TLC checks after every step that the operational map equals the declarative Unspent(prefix); every '
+             'complete history is turned into a real chain (forward references, duplicates, unknown outpoints, address-less outputs) and '
+             'the unspent dump compared as a row set; long random histories are trace-validated event by event (Trace_Utxo: hit flag of '
+             'every removal, every dumped row, nothing missing).',
+        tech='TLA+ Utxo.tla + TLC, replay of complete histories as real chains, trace validation of spend/create/dump events',
+        ref='6/C07'),
+    'C08': dict(
+        text='Same model and runs as C07: TLC checks Balances(utxo) = per-address sum of Unspent(prefix); the real balances dump is compared '
+             'with the specification\'s map, with the reference and with the aggregation of the real unspent dump of the same directory; '
+             'bal_row events are validated against Utxo.tla (each address once, exact sum, none missing).',
+        tech='TLA+ Utxo.tla + TLC, replay of histories, relation between two whole-program runs, trace validation of bal_row events',
+        ref='6/C08'),
+    'C15': dict(
+        text='Stats.tla accumulates block by block and transaction by transaction as simplestats does; TLC checks after every block that '
+             'every accumulator equals the declarative figure of the prefix (sums, first-on-ties maxima, clamped gaps, fees above the '
+             'era reward, per-type counts and first occurrences). Complete chains are realised (heights around the halvings, sizes by '
+             'witness padding, timestamps in 1.4e9 s units) and the parsed report compared figure by figure; sums beyond 2^32 via '
+             'timestamp gaps and the get_mean driver.',
+        tech='TLA+ Stats.tla + TLC, replay of model chains with parsed report comparison, driver for get_mean',
+        ref='6/C15'),
+})
+
 NOT_YET = 'check under construction in this session; will be claimed once its TLC model and conformance leg run green'
 
 
